@@ -169,6 +169,9 @@ class AbstractWav(ABC):
         startTime, endTime = utils.getInterval(start, step, self.duration, reverse)
         samples = self.getSamples(startTime, endTime)
 
+        # The samples begin at the sample that is nearest to startTime
+        startTime = round(startTime * self.frameRate) / self.frameRate
+
         return _findNextZeroCrossing(startTime, samples, self.frameRate, reverse)
 
     @property
